@@ -45,7 +45,7 @@ class Env:
 
     def comp(self, name, node):
         """coq text reading a state component"""
-        spec = self.mod.components.get(name)
+        spec = self.mod.components.get(name) or ([x for x in self.mod.slots if x['component'] == name] or [None])[0]
         if spec is None:
             raise Unsupported(node, 'state component %s is not in the signature file' % name)
         self.used_comps.add(name)
@@ -141,6 +141,9 @@ def expr(env, node, expect=None):
             raise Unsupported(node, 'empty dict literal')
         return '[%s]' % '; '.join(items), ('dict', vt)
     if isinstance(node, ast.UnaryOp) and isinstance(node.op, ast.Not):
+        txt, t = expr(env, node.operand)
+        if t[0] in ('list', 'set', 'dict'):
+            return 'lnull %s' % par(txt), ('bool',)
         return 'negb %s' % par(truth(env, node.operand)), ('bool',)
     if isinstance(node, ast.BoolOp):
         op = ' && ' if isinstance(node.op, ast.And) else ' || '
@@ -197,8 +200,8 @@ def ifexp(env, node, expect):
     return 'if %s then %s else %s' % (c, a, b), ta
 
 
-NAT_CMP = {ast.Eq: '{0} =? {1}', ast.NotEq: 'negb ({0} =? {1})', ast.Lt: '{0} <? {1}', ast.LtE: '{0} <=? {1}',
-           ast.Gt: '{1} <? {0}', ast.GtE: '{1} <=? {0}'}
+NAT_CMP = {ast.Eq: 'Nat.eqb {0} {1}', ast.NotEq: 'negb (Nat.eqb {0} {1})', ast.Lt: 'Nat.ltb {0} {1}',
+           ast.LtE: 'Nat.leb {0} {1}', ast.Gt: 'Nat.ltb {1} {0}', ast.GtE: 'Nat.leb {1} {0}'}
 
 
 def compare(env, node):
@@ -317,6 +320,7 @@ def call_fn(env, f, args, node, kw=None):
         if not env.record:
             raise Unsupported(node, '%s takes the whole profile record, which this function does not have' % f.py)
         pre.append(env.record)
+        env.used_comps.add('<record>')
     else:
         pre = [par(env.comp(c, node)) for c in f.reads]
     return ' '.join([f.coq] + pre + [par(a) for a, _ in args])
